@@ -45,9 +45,9 @@ def wellFormed : Packet → Bool
   | .connack _ code => code.toNat ≤ 5
   | .publish m _ id => validQoS m.qos && str16 m.topic && m.topic.length > 0 && (m.qos == 0 || id != 0)
   | .puback id | .pubrec id | .pubrel id | .pubcomp id | .unsuback id => id != 0
-  | .subscribe ss id => id != 0 && ss.all (fun s => str16 s.topic && validQoS s.qos)
-  | .suback cs id => id != 0 && cs.all (fun c => validQoS c || c == 0x80)
-  | .unsubscribe ts id => id != 0 && ts.all str16
+  | .subscribe ss id => id != 0 && !ss.isEmpty && ss.all (fun s => str16 s.topic && validQoS s.qos)
+  | .suback cs id => id != 0 && !cs.isEmpty && cs.all (fun c => validQoS c || c == 0x80)
+  | .unsubscribe ts id => id != 0 && !ts.isEmpty && ts.all str16
   | _ => true
 
 def body : Packet → Bytes
